@@ -34,6 +34,10 @@ pub fn c13(args: &Args, reg: &[TypeEntry], log: &mut Log) {
     std::env::set_current_dir(&root).unwrap();
     std::env::remove_var("TS_RS_EXPORT_DIR");
     let mut rng = Rng::new(args.seed ^ 0xC13);
+    // entries whose id starts with `nx:` cannot be exported (they only take part in the dump)
+    let all_reg = reg;
+    let exportable: Vec<TypeEntry> = all_reg.iter().filter(|e| !e.id.starts_with("nx:")).cloned().collect();
+    let reg: &[TypeEntry] = &exportable;
     let mut first: Option<(String, super::fsutil::Tree)> = None;
     for threads in [1usize, 4, 16] {
         for rep in 0..2 {
